@@ -299,7 +299,7 @@ template<class T> struct Driver {
         if (write(fd[1], &n, 8) != 8) status = 6;
         size_t off = 0;
         while (status == 0 && off < v.size()) { ssize_t w = write(fd[1], v.data() + off, v.size() - off); if (w <= 0) status = 6; else off += (size_t)w; }
-        _exit(status);   // without running destructors on a possibly corrupted heap
+        vt::child_exit(status);   // without running destructors on a possibly corrupted heap
       } catch (...) { _exit(5); }
     }
     close(fd[1]);
